@@ -157,14 +157,13 @@ func checkC18(r *Run) propMeta {
 		}
 		// load-side reads: fields selected in load.go / verify.go functions
 		reads := map[*types.Var]token.Pos{}
-		for _, f := range p.Syntax {
-			fname := r.Fset.Position(f.Pos()).Filename
-			if strings.HasSuffix(fname, "/load.go") {
-				for _, d := range f.Decls {
-					if d2, ok := d.(*ast.FuncDecl); ok && d2.Body != nil {
-						fieldsSelectedIn(p, d2.Body, reads)
-					}
-				}
+		loadPath := declsReachableFrom(p, "Load")
+		if len(loadPath) < 5 {
+			r.Undecide("C18-R1: the load path (functions reachable from retriever.Load) has only %d functions", len(loadPath))
+		}
+		for d2 := range loadPath {
+			if d2.Body != nil {
+				fieldsSelectedIn(p, d2.Body, reads)
 			}
 		}
 		for i := 0; i < st.NumFields(); i++ {
@@ -481,13 +480,19 @@ func checkInjectiveNaming(r *Run, p *packages.Package) {
 	}
 	// R7: map keys made with strings.Join
 	n := 0
-	for _, f := range p.Syntax {
-		if !strings.HasSuffix(r.Fset.Position(f.Pos()).Filename, "metrics.go") {
-			continue
+	// the metrics code: the methods of the metrics builder, every function with "metric" in its name, and what they reach
+	var metricRoots []string
+	for name := range decls {
+		if strings.HasPrefix(name, "metricsBuilder.") || strings.Contains(strings.ToLower(name), "metric") {
+			metricRoots = append(metricRoots, name)
 		}
+	}
+	sort.Strings(metricRoots)
+	metricDecls := declsReachableFrom(p, metricRoots...)
+	for _, f := range p.Syntax {
 		for _, d := range f.Decls {
 			fd, ok := d.(*ast.FuncDecl)
-			if !ok || fd.Body == nil {
+			if !ok || fd.Body == nil || !metricDecls[fd] {
 				continue
 			}
 			joined := map[types.Object]token.Pos{}
@@ -542,6 +547,6 @@ func checkInjectiveNaming(r *Run, p *packages.Package) {
 		}
 	}
 	if n == 0 {
-		r.Undecide("C18-R7: no string-keyed map access found in retriever/metrics.go")
+		r.Undecide("C18-R7: no string-keyed map access found in the metrics code of package retriever")
 	}
 }
